@@ -374,6 +374,24 @@ def r3b(text, ctx):
 @rule('R8', 'the type `Box<dyn Iterator<Item = T> + Send>` -> `std::vec::IntoIter<T>`; `Box::new(E.into_iter())` -> `E.into_iter()` (drops laziness / boxing of listings)')
 def r8(text, ctx):
     n = 0
+    # boxing of an iterator as the trait object is the identity once the type is the concrete vector iterator
+    text, c = re.subn(r'\.map\(\s*\|\s*(\w+)\s*\|\s*Box::new\(\s*\1\s*\)\s+as\s+Box\s*<\s*dyn\s+Iterator\s*<[^>]*>\s*(?:\+\s*Send\s*)?>\s*\)', '', text)
+    n += c
+    # `|it| it.map(f)` on a listing -> `|it| verif_iter_map(it, f)`
+    while True:
+        toks = lex(text)
+        hit = None
+        for i, t in enumerate(toks):
+            if t.text == '|' and i + 6 < len(toks) and toks[i + 1].kind == 'ident' and toks[i + 2].text == '|' and toks[i + 3].kind == 'ident' and toks[i + 3].text == toks[i + 1].text \
+                    and toks[i + 4].text == '.' and toks[i + 5].text == 'map' and toks[i + 6].text == '(':
+                k = match_close(toks, i + 6)
+                inner = text[toks[i + 6].end:toks[k].start]
+                hit = (toks[i + 3].start, toks[k].end, 'verif_iter_map(%s, %s)' % (toks[i + 1].text, inner.strip()))
+                break
+        if not hit:
+            break
+        text = text[:hit[0]] + hit[2] + text[hit[1]:]
+        n += 1
     text, c = re.subn(r'Box\s*<\s*dyn\s+Iterator\s*<\s*Item\s*=\s*([A-Za-z0-9_]+)\s*>\s*(?:\+\s*Send\s*)?>', r'std::vec::IntoIter<\1>', text)
     n += c
     while True:
